@@ -371,7 +371,7 @@ theorem withCgFinish_good {cg : Val} {m m2 : M} {r : Res} (hs : Same m m2) (hr :
   | err m1 => exact hs.toExt.trans hr
   | crash w m1 => exact hs.ctxs.symm.trans hr
 
-theorem loadFinish_good {m m2 : M} {r : Res} (hs : Same m m2) (hr : Good m2 r) : Good m (loadFinish r) := by
+theorem loadFinish_good {cg : Val} {m m2 : M} {r : Res} (hs : Same m m2) (hr : Good m2 r) : Good m (loadFinish cg r) := by
   cases r with
   | ok m1 => exact hs.trans ⟨hr.vs, hr.cs, hr.ctxs⟩
   | err m1 => exact hs.toExt.trans hr
@@ -383,6 +383,16 @@ theorem dhookFinish_good {v : Val} {m m2 : M} {r : Res} (hs : Same m m2) (hr : G
   | ok m1 => exact hs.trans ⟨hr.vs, hr.cs, hr.ctxs⟩
   | err m1 => exact hs.toExt.trans hr
   | crash w m1 => exact hs.ctxs.symm.trans hr
+
+theorem vitalFinish_good {b : Bool} {tmp : Val} {m m2 : M} {r : Res} (hv : m2.vs = Slot.handler fixNamesId :: m.vs)
+    (hc : m2.cs = m.cs) (hx : m2.ctxs = m.ctxs) (hr : Good m2 r) : Good m (vitalFinish b tmp r) := by
+  cases r with
+  | ok m1 =>
+    have h1 : m1.vs = Slot.handler fixNamesId :: m.vs := hr.vs.trans hv
+    simp only [vitalFinish, dropTop, h1]
+    cases b <;> exact ⟨rfl, hr.cs.trans hc, hr.ctxs.trans hx⟩
+  | err m1 => exact (Ext.mk' [Slot.handler fixNamesId] [] hv (by simp [hc]) hx).trans hr
+  | crash w m1 => exact hx.symm.trans hr
 
 theorem verbFinish_good {m m2 : M} {r : Res} (hs : Same m m2) (hr : Good m2 r) : Good m (verbFinish r) := by
   cases r with
@@ -740,6 +750,17 @@ theorem execCore_good : ∀ (o : Op) (m : M), Good m (execCore o m)
   | .dhook v body, m => by
     simp only [execCore]
     exact dhookFinish_good (m2 := { m with restrictDestruct := v }) ⟨rfl, rfl, rfl⟩ (exec_good body _)
+  | .vital isMaster body, m => by
+    simp only [execCore]
+    cases isMaster
+    · simp only [Bool.false_eq_true, ↓reduceIte]
+      split
+      · exact raise_good _ (Same.rfl' m).toExt
+      · exact vitalFinish_good (m2 := { m with vs := Slot.handler fixNamesId :: m.vs, savedMasterName := m.masterName, savedSimulName := m.simulName, simulName := 0 }) rfl rfl rfl (exec_good body _)
+    · simp only [↓reduceIte]
+      split
+      · exact raise_good _ (Same.rfl' m).toExt
+      · exact vitalFinish_good (m2 := { m with vs := Slot.handler fixNamesId :: m.vs, savedMasterName := m.masterName, savedSimulName := m.simulName, masterName := 0 }) rfl rfl rfl (exec_good body _)
   | .verb v body, m => by
     simp only [execCore]
     exact verbFinish_good (m2 := { m with lastVerb := v }) ⟨rfl, rfl, rfl⟩ (exec_good body _)
